@@ -405,7 +405,7 @@ def main(ctx):
     # decided, so the sequence numbers keep being reset on both sides ----
     pl = [bytes([(5 * i + j) % 251 for j in range(600)]) for i in range(10)]
     for role in 'sc':
-        for rk in ((1500,) if quick else (800, 1500, 4000)):
+        for rk in ((1500,) if quick else (800, 1500, 3000)):
             r = T.run_asym_session(role, {}, pl, kw=dict(rekey_bytes=rk),
                                    raw_kw=dict(strict_first_only=True))
             nkex = sum(1 for t, *_ in r['rec'].app['c'] if t == 20)
